@@ -3,6 +3,9 @@ T1 = "clematis/engine/stages/t1.py"
 OC = "clematis/engine/orchestrator/core.py"
 T1C = "clematis/engine/stages/t1.py"
 CASES = [
+    ("namespace-cache-evicts-at-cap", "mutant", "clematis/engine/cache.py", "        while len(self._d) > self._max:\n", "        while len(self._d) >= self._max:\n", "C14.CONTRACT"),
+    ("namespace-cache-evict-guarded-nonempty", "twin", "clematis/engine/cache.py", "        while len(self._d) > self._max:\n", "        while self._d and len(self._d) > self._max:\n", None),
+    ("ring-make-room-without-enabled-test", "mutant", "clematis/engine/util/ring.py", "        while self.k and len(self._q) >= self.k:\n", "        while len(self._q) >= self.k:\n", "C14.CONTRACT"),
     ("ensure-dict-returns-input", "mutant", V, "    if isinstance(x, dict):\n        return dict(x)\n", "    if isinstance(x, dict):\n        return x\n", "C14.PURE"),
     ("ensure-subdict-aliases", "mutant", V, "    v = _ensure_dict(cfg.get(key))\n    if key not in cfg:\n        cfg[key] = v\n    return v\n", "    v = cfg.get(key)\n    if not isinstance(v, dict):\n        v = {}\n        cfg[key] = v\n    return v\n", "C14.PURE"),
     ("store-through-alias", "mutant", V, "    c2 = _ensure_subdict(t2, \"cache\")\n", "    c2 = t2.get(\"cache\") or {}\n", "C14.PURE"),
